@@ -355,7 +355,7 @@ func PoolCtor(p *core.Prog, r *core.Report) {
 				return
 			}
 			for fi := 0; fi < st.NumFields(); fi++ {
-				key := fn + ":" + core.KnownTypeName(named) + "." + st.Field(fi).Name()
+				key := fn + ":" + core.KnownTypeName(named) + "." + core.FieldName(st, fi)
 				ok := false
 				for _, s := range stores[fi] {
 					all := true
@@ -371,7 +371,7 @@ func PoolCtor(p *core.Prog, r *core.Report) {
 				if ok {
 					r.OK(rule, key, p.Pos(c.Pos()), "field assigned on every path from the borrow to the return")
 				} else {
-					r.Bad(rule, key, p.Pos(c.Pos()), fmt.Sprintf("field %s of a borrowed %s is not assigned on every path before the object is returned: it keeps the value of the object's previous life", st.Field(fi).Name(), core.KnownTypeName(named)))
+					r.Bad(rule, key, p.Pos(c.Pos()), fmt.Sprintf("field %s of a borrowed %s is not assigned on every path before the object is returned: it keeps the value of the object's previous life", core.FieldName(st, fi), core.KnownTypeName(named)))
 				}
 			}
 			// read-before-write
@@ -392,7 +392,7 @@ func PoolCtor(p *core.Prog, r *core.Report) {
 						continue
 					}
 					nReads++
-					key := fn + ":read:" + core.KnownTypeName(named) + "." + st.Field(fa.Field).Name()
+					key := fn + ":read:" + core.KnownTypeName(named) + "." + core.FieldName(st, fa.Field)
 					if dominatedByStore(fa.Field, x) {
 						r.OK(rule, key, p.Pos(x.Pos()), "read after the field was assigned")
 					} else {
@@ -420,7 +420,7 @@ func PoolCtor(p *core.Prog, r *core.Report) {
 						var missing []string
 						for fi := range m {
 							if !dominatedByStore(fi, x) {
-								missing = append(missing, st.Field(fi).Name())
+								missing = append(missing, core.FieldName(st, fi))
 							}
 						}
 						nReads++
@@ -505,7 +505,7 @@ func leafPaths(pkg *types.Package, prefix string, t types.Type, out *[]string, t
 		return
 	}
 	for i := 0; i < st.NumFields(); i++ {
-		leafPaths(pkg, prefix+"."+st.Field(i).Name(), st.Field(i).Type(), out, types_)
+		leafPaths(pkg, prefix+"."+core.FieldName(st, i), st.Field(i).Type(), out, types_)
 	}
 }
 
@@ -587,7 +587,7 @@ func checkCleared(p *core.Prog, r *core.Report, pi *poolInfo) {
 				case *ssa.Const:
 					// the zero value — except the mark of a pooled result, which the clearing function sets
 					zero := v.Value == nil || v.Value.ExactString() == "0" || v.Value.ExactString() == "false" || v.Value.ExactString() == `""`
-					if zero || (strings.HasSuffix(leaf, ".wantsRedeemOnMerge") && v.Value.ExactString() == "true") {
+					if zero || (strings.HasSuffix(leaf, "."+pooledMark) && v.Value.ExactString() == "true") {
 						done = "stored constant " + v.String()
 					}
 				case *ssa.Slice:
